@@ -20,7 +20,8 @@ func usage() {
   gosmt check <PROP> [--tier quick|thorough]   run every harness of a property, replay, write evidence
   gosmt run <Harness> [--tier ..] [--debug]    run one harness and print the result
   gosmt replay <file>                          replay a recorded counterexample natively
-  gosmt list                                   list harnesses`)
+  gosmt list                                   list harnesses
+  gosmt selftest                               differential validation of the reference models against x/net`)
 	os.Exit(64)
 }
 
@@ -71,6 +72,8 @@ func main() {
 			usage()
 		}
 		os.Exit(drv.Check(pos[0], o))
+	case "selftest":
+		os.Exit(drv.Selftest(load()))
 	case "replay":
 		if len(pos) != 1 {
 			usage()
